@@ -27,6 +27,7 @@ def corr(seed, tier, props_focus=None):
                comp_explore.focus_for('C08'), comp_explore.focus_for('C08')]
     for i in range(n):
         sc = explore.gen_scenario(rng, focuses[i % len(focuses)])
+        explore.strip_chains(sc)      # the trace models know the scenario's own transfers only
         if sc.get('cancel') and sc['cancel']['kind'] in ('interrupt-result', 'interrupt-exit'):
             sc['cancel'] = None
         run = explore.run_scenario(sc, observe=True)
@@ -67,6 +68,7 @@ def exec_corr(seed, tier):
     focus = comp_explore.focus_for('C10')
     for i in range(n):
         sc = explore.gen_scenario(rng, focus if i % 2 else None)
+        explore.strip_chains(sc)      # the trace models know the scenario's own transfers only
         if sc.get('cancel') and sc['cancel']['kind'] in ('interrupt-result', 'interrupt-exit'):
             sc['cancel'] = None
         run = explore.run_scenario(sc, observe=True)
